@@ -469,3 +469,866 @@ Proof.
   apply (nth_ext _ _ 0 0); [exact Hlen|].
   intros p Hp. apply Hb. right. apply Hcov. lia.
 Qed.
+
+(** ** events and the file system *)
+
+Definition is_body (e : dev) : bool :=
+  match e with EGet _ _ _ | EOpen _ | EWrite _ _ _ => true | _ => false end.
+Definition is_get (e : dev) : bool := match e with EGet _ _ _ => true | _ => false end.
+Definition wev (w : Z * bytes) : dev := EWrite (fst w) (snd w) true.
+
+Lemma run_from_app s a b : run_from s (a ++ b) = run_from (run_from s a) b.
+Proof. apply fold_left_app. Qed.
+
+Lemma body_keeps_dest : forall l s, forallb is_body l = true -> dest (run_from s l) = dest s.
+Proof.
+  induction l as [|e l IH]; intros s H; [reflexivity|].
+  cbn in H. apply andb_prop in H. destruct H as [He Hl].
+  cbn [run_from fold_left]. change (fold_left apply_ev l (apply_ev s e)) with (run_from (apply_ev s e) l).
+  rewrite IH by exact Hl.
+  destruct e as [ok|r a ok|ok|off d ok| |ok]; try discriminate; try reflexivity.
+  - now destruct ok.
+  - now destruct ok.
+Qed.
+
+Lemma gets_keep_fs : forall l s, forallb is_get l = true -> run_from s l = s.
+Proof.
+  induction l as [|e l IH]; intros s H; [reflexivity|].
+  cbn in H. apply andb_prop in H. destruct H as [He Hl].
+  cbn [run_from fold_left]. change (fold_left apply_ev l (apply_ev s e)) with (run_from (apply_ev s e) l).
+  rewrite IH by exact Hl. destruct e; try discriminate. reflexivity.
+Qed.
+
+Lemma run_writes : forall ws t d0,
+  run_from {| temp := Some t; dest := d0 |} (map wev ws) =
+  {| temp := Some (apply_writes ws t); dest := d0 |}.
+Proof.
+  induction ws as [|w ws IH]; intros t d0; [reflexivity|].
+  cbn [map run_from fold_left apply_writes]. unfold wev at 1. cbn [apply_ev temp dest].
+  apply IH.
+Qed.
+
+Lemma single_writes_ok : forall ws j wf es,
+  single_writes ws j wf = (es, None) -> es = map wev ws.
+Proof.
+  induction ws as [|[off d] ws IH]; intros j wf es H; cbn [single_writes] in H.
+  - now injection H as <-.
+  - destruct wf as [[k c]|].
+    + destruct (Nat.eqb k j); [discriminate|].
+      destruct (single_writes ws (S j) (Some (k, c))) as [es' x] eqn:E. injection H as <- ->.
+      cbn [map]. unfold wev at 1. cbn [fst snd]. f_equal. eapply IH; exact E.
+    + destruct (single_writes ws (S j) None) as [es' x] eqn:E. injection H as <- ->.
+      cbn [map]. unfold wev at 1. cbn [fst snd]. f_equal. eapply IH; exact E.
+Qed.
+
+Lemma single_writes_body : forall ws j wf es x,
+  single_writes ws j wf = (es, x) -> forallb is_body es = true.
+Proof.
+  induction ws as [|[off d] ws IH]; intros j wf es x H; cbn [single_writes] in H.
+  - now injection H as <- <-.
+  - destruct wf as [[k c]|].
+    + destruct (Nat.eqb k j); [now injection H as <- <-|].
+      destruct (single_writes ws (S j) (Some (k, c))) as [es' x'] eqn:E. injection H as <- <-.
+      cbn. eapply IH; exact E.
+    + destruct (single_writes ws (S j) None) as [es' x'] eqn:E. injection H as <- <-.
+      cbn. eapply IH; exact E.
+Qed.
+
+Lemma single_writes_noget : forall ws j wf es x,
+  single_writes ws j wf = (es, x) -> filter is_get es = [].
+Proof.
+  induction ws as [|[off d] ws IH]; intros j wf es x H; cbn [single_writes] in H.
+  - now injection H as <- <-.
+  - destruct wf as [[k c]|].
+    + destruct (Nat.eqb k j); [now injection H as <- <-|].
+      destruct (single_writes ws (S j) (Some (k, c))) as [es' x'] eqn:E. injection H as <- <-.
+      cbn. eapply IH; exact E.
+    + destruct (single_writes ws (S j) None) as [es' x'] eqn:E. injection H as <- <-.
+      cbn. eapply IH; exact E.
+Qed.
+
+Lemma io_writes_ok : forall ws j iof es,
+  io_writes ws j iof = (es, false) -> es = map wev ws.
+Proof.
+  induction ws as [|[off d] ws IH]; intros j iof es H; cbn [io_writes] in H.
+  - now injection H as <-.
+  - destruct iof as [k|].
+    + destruct (Nat.eqb k j); [discriminate|].
+      destruct (io_writes ws (S j) (Some k)) as [es' x] eqn:E. injection H as <- ->.
+      cbn [map]. unfold wev at 1. cbn [fst snd]. f_equal. eapply IH; exact E.
+    + destruct (io_writes ws (S j) None) as [es' x] eqn:E. injection H as <- ->.
+      cbn [map]. unfold wev at 1. cbn [fst snd]. f_equal. eapply IH; exact E.
+Qed.
+
+Lemma io_writes_body : forall ws j iof es x,
+  io_writes ws j iof = (es, x) -> forallb is_body es = true.
+Proof.
+  induction ws as [|[off d] ws IH]; intros j iof es x H; cbn [io_writes] in H.
+  - now injection H as <- <-.
+  - destruct iof as [k|].
+    + destruct (Nat.eqb k j); [now injection H as <- <-|].
+      destruct (io_writes ws (S j) (Some k)) as [es' x'] eqn:E. injection H as <- <-.
+      cbn. eapply IH; exact E.
+    + destruct (io_writes ws (S j) None) as [es' x'] eqn:E. injection H as <- <-.
+      cbn. eapply IH; exact E.
+Qed.
+
+(** ** the retry loop *)
+
+(** attempts made <= fuel; attempt j ran script j with number i+j; every
+    attempt but the last asked for a retry; the last one decides. *)
+Lemma retry_loop_spec {A} (run : nat -> attempt -> A * ares) : forall fuel i scripts es r,
+  retry_loop run fuel i scripts = (es, r) ->
+  (length es <= fuel)%nat /\
+  (forall j, (j < length es)%nat ->
+     forall dflt, nth j es dflt = fst (run (i + j)%nat (nth j scripts ok_attempt))) /\
+  (forall j, (S j < length es)%nat -> snd (run (i + j)%nat (nth j scripts ok_attempt)) = ARetry) /\
+  match r with
+  | RDone => exists k, length es = S k /\ snd (run (i + k)%nat (nth k scripts ok_attempt)) = AOk
+  | RFatal => exists k, length es = S k /\ snd (run (i + k)%nat (nth k scripts ok_attempt)) = AFatal
+  | RExceeded => length es = fuel /\
+      forall j, (j < fuel)%nat -> snd (run (i + j)%nat (nth j scripts ok_attempt)) = ARetry
+  end.
+Proof.
+  induction fuel as [|f IH]; intros i scripts es r H; cbn [retry_loop] in H.
+  - injection H as <- <-. cbn. repeat split; try lia; intros; lia.
+  - assert (Hhd : hd ok_attempt scripts = nth 0 scripts ok_attempt) by now destruct scripts.
+    assert (Htl : forall j, nth j (tl scripts) ok_attempt = nth (S j) scripts ok_attempt).
+    { intros j. destruct scripts; [now destruct j|reflexivity]. }
+    rewrite Hhd in H. destruct (run i (nth 0 scripts ok_attempt)) as [e x] eqn:Er.
+    destruct x.
+    + injection H as <- <-. cbn [length]. split; [lia|]. split.
+      { intros j Hj dflt. assert (j = 0%nat) as -> by lia. rewrite Nat.add_0_r, Er. reflexivity. }
+      split; [intros; lia|]. exists 0%nat. rewrite Nat.add_0_r, Er. auto.
+    + destruct (retry_loop run f (S i) (tl scripts)) as [es' rr] eqn:El. injection H as <- <-.
+      apply IH in El. destruct El as (L1 & L2 & L3 & L4). cbn [length]. split; [lia|]. split.
+      { intros j Hj dflt. destruct j as [|j]; [rewrite Nat.add_0_r, Er; reflexivity|].
+        cbn [nth]. rewrite L2 by lia. rewrite Htl. do 2 f_equal. lia. }
+      split.
+      { intros j Hj. destruct j as [|j]; [rewrite Nat.add_0_r, Er; reflexivity|].
+        specialize (L3 j ltac:(lia)). rewrite Htl in L3.
+        replace (i + S j)%nat with (S i + j)%nat by lia. exact L3. }
+      destruct rr.
+      * destruct L4 as (k & Lk & Lr). exists (S k). split; [lia|].
+        rewrite Htl in Lr. replace (i + S k)%nat with (S i + k)%nat by lia. exact Lr.
+      * destruct L4 as (k & Lk & Lr). exists (S k). split; [lia|].
+        rewrite Htl in Lr. replace (i + S k)%nat with (S i + k)%nat by lia. exact Lr.
+      * destruct L4 as (Lk & Lr). split; [lia|]. intros j Hj.
+        destruct j as [|j]; [rewrite Nat.add_0_r, Er; reflexivity|].
+        specialize (Lr j ltac:(lia)). rewrite Htl in Lr.
+        replace (i + S j)%nat with (S i + j)%nat by lia. exact Lr.
+    + injection H as <- <-. cbn [length]. split; [lia|]. split.
+      { intros j Hj dflt. assert (j = 0%nat) as -> by lia. rewrite Nat.add_0_r, Er. reflexivity. }
+      split; [intros; lia|]. exists 0%nat. rewrite Nat.add_0_r, Er. auto.
+Qed.
+
+(** ** single GET path *)
+
+Lemma split_last {A} (d : A) (l : list A) k : length l = S k -> l = firstn k l ++ [nth k l d].
+Proof.
+  intros H. rewrite <- (firstn_skipn k l) at 1. f_equal.
+  assert (Hl : length (skipn k l) = 1%nat) by (rewrite skipn_length; lia).
+  destruct (skipn k l) as [|x [|y r]] eqn:E; try discriminate Hl.
+  f_equal. rewrite <- (Nat.add_0_r k) at 1. rewrite <- nth_skipn_add, E. reflexivity.
+Qed.
+
+Lemma forallb_concat {A} (f : A -> bool) (ls : list (list A)) :
+  (forall x, In x ls -> forallb f x = true) -> forallb f (concat ls) = true.
+Proof.
+  induction ls as [|l ls IH]; intros H; [reflexivity|].
+  cbn [concat]. rewrite forallb_app. apply andb_true_intro. split.
+  - apply H. now left.
+  - apply IH. intros x Hx. apply H. now right.
+Qed.
+
+Lemma chunks_of_complete data buf a cs : 1 <= buf ->
+  chunks_of data buf a = (cs, false) -> concat cs = data.
+Proof.
+  intros Hb H. unfold chunks_of in H. eapply stream_chunks_complete; [exact Hb| |exact H]. lia.
+Qed.
+
+Lemma chunks_of_prefix data buf a cs flt :
+  chunks_of data buf a = (cs, flt) -> exists tail, data = concat cs ++ tail.
+Proof. intros H. unfold chunks_of in H. eapply stream_chunks_prefix; exact H. Qed.
+
+Lemma single_attempt_body obj i a : forallb is_body (fst (single_attempt obj i a)) = true.
+Proof.
+  unfold single_attempt. destruct (a_get a); [reflexivity|]. destruct (a_open a); [reflexivity|].
+  destruct (chunks_of obj SINGLE_BUF a) as [cs flt].
+  destruct (single_writes _ _ _) as [wes werr] eqn:Ew.
+  apply single_writes_body in Ew.
+  destruct werr; [exact Ew|]. destruct flt; exact Ew.
+Qed.
+
+(** a successful attempt leaves exactly the object in the temp file, whatever
+    earlier attempts left there: open(...,'wb') truncates *)
+Lemma single_attempt_ok obj i a : snd (single_attempt obj i a) = AOk ->
+  forall s, run_from s (fst (single_attempt obj i a)) = {| temp := Some obj; dest := dest s |}.
+Proof.
+  unfold single_attempt.
+  destruct (a_get a) as [c|]; [destruct c; discriminate|].
+  destruct (a_open a) as [c|]; [destruct c; discriminate|].
+  destruct (chunks_of obj SINGLE_BUF a) as [cs flt] eqn:Ec.
+  destruct (single_writes _ _ _) as [wes werr] eqn:Ew.
+  destruct werr as [c|]; [destruct c; discriminate|].
+  destruct flt; [destruct (fault_cls a); discriminate|].
+  intros _ s. cbn [fst]. apply single_writes_ok in Ew. subst wes.
+  apply chunks_of_complete in Ec; [|unfold SINGLE_BUF; lia].
+  cbn [run_from fold_left apply_ev].
+  change (fold_left apply_ev (map wev (writes_from 0 cs)) {| temp := Some []; dest := dest s |})
+    with (run_from {| temp := Some []; dest := dest s |} (map wev (writes_from 0 cs))).
+  rewrite run_writes. f_equal. f_equal.
+  apply apply_writes_all.
+  - apply (writes_from_consistent obj cs 0 []); [lia|cbn; lia|]. cbn [Z.to_nat skipn]. now rewrite app_nil_r.
+  - intros p Hp. apply writes_from_covers; [lia|]. rewrite Ec. cbn. lia.
+Qed.
+
+Lemma single_get_body obj max scripts : forallb is_body (fst (single_get obj max scripts)) = true.
+Proof.
+  unfold single_get. destruct (retry_loop _ _ _ _) as [es r] eqn:E. cbn [fst].
+  apply retry_loop_spec in E. destruct E as (_ & L2 & _).
+  apply forallb_concat. intros x Hx. apply (In_nth _ _ []) in Hx. destruct Hx as (j & Hj & <-).
+  rewrite L2 by exact Hj. apply single_attempt_body.
+Qed.
+
+Lemma single_get_done obj max scripts es : single_get obj max scripts = (es, RDone) ->
+  forall s, run_from s es = {| temp := Some obj; dest := dest s |}.
+Proof.
+  unfold single_get. destruct (retry_loop _ _ _ _) as [ess r] eqn:E. intros [= <- ->] s.
+  pose proof (retry_loop_spec _ _ _ _ _ _ E) as (_ & L2 & _ & (k & Lk & Lr)).
+  rewrite (split_last [] ess k Lk), concat_app, run_from_app. cbn [concat]. rewrite app_nil_r.
+  rewrite L2 by lia. cbn [Nat.add] in *. rewrite single_attempt_ok by exact Lr.
+  f_equal. apply body_keeps_dest.
+  apply forallb_concat. intros x Hx. apply In_firstn_incl in Hx.
+  apply (In_nth _ _ []) in Hx. destruct Hx as (j & Hj & <-). rewrite L2 by exact Hj. apply single_attempt_body.
+Qed.
+
+(** at most max_attempts get_object calls, numbered 0,1,..; a non-retryable
+    error or a success ends the loop *)
+Lemma single_get_attempts obj max scripts :
+  let (es, r) := single_get obj max scripts in
+  (length (filter is_get es) <= max)%nat.
+Proof.
+  unfold single_get. destruct (retry_loop _ _ _ _) as [ess r] eqn:E.
+  apply retry_loop_spec in E. destruct E as (L1 & L2 & _).
+  assert (H : forall l : list (list dev), (forall x, In x l -> length (filter is_get x) = 1%nat) ->
+              length (filter is_get (concat l)) = length l).
+  { induction l as [|x l IH]; intros Hx; [reflexivity|].
+    cbn [concat]. rewrite filter_app, app_length, Hx by (now left). cbn [length Nat.add]. f_equal.
+    apply IH. intros y Hy. apply Hx. now right. }
+  rewrite H; [exact L1|].
+  intros x Hx. apply (In_nth _ _ []) in Hx. destruct Hx as (j & Hj & <-). rewrite L2 by exact Hj.
+  unfold single_attempt. destruct (a_get _); [reflexivity|]. destruct (a_open _); [reflexivity|].
+  destruct (chunks_of _ _ _) as [cs flt]. destruct (single_writes _ _ _) as [wes werr] eqn:Ew.
+  pose proof (single_writes_noget _ _ _ _ _ Ew) as Hw.
+  destruct werr; [|destruct flt]; cbn [fst filter is_get]; rewrite Hw; reflexivity.
+Qed.
+
+(** ** ranged path *)
+
+Lemma range_interval_fst size r : fst (range_interval size r) = fst r.
+Proof. destruct r as [s [e|]]; reflexivity. Qed.
+
+Lemma range_data_eq obj r :
+  range_data obj r =
+  firstn (Z.to_nat (snd (range_interval (Z.of_nat (length obj)) r) - fst r))
+         (skipn (Z.to_nat (fst r)) obj).
+Proof.
+  unfold range_data. rewrite <- (range_interval_fst (Z.of_nat (length obj)) r).
+  now destruct (range_interval (Z.of_nat (length obj)) r).
+Qed.
+
+Section OneRange.
+  Variable obj : bytes.
+  Variable r : Z * option Z.
+  Hypothesis Hlo : 0 <= fst r.
+  Hypothesis Hle : (Z.to_nat (fst r) <= length obj)%nat.
+
+  Lemma range_attempt_consistent i a :
+    Forall (consistent obj) (snd (fst (range_attempt obj r i a))).
+  Proof using Hlo Hle.
+    unfold range_attempt. destruct (a_get a); [constructor|].
+    destruct (chunks_of _ _ _) as [cs flt] eqn:Ec. cbn [fst snd].
+    apply chunks_of_prefix in Ec. destruct Ec as [tail Ht].
+    apply (writes_from_consistent obj cs (fst r)
+             (tail ++ skipn (Z.to_nat (snd (range_interval (Z.of_nat (length obj)) r) - fst r))
+                            (skipn (Z.to_nat (fst r)) obj))); [exact Hlo|exact Hle|].
+    rewrite app_assoc, <- Ht, range_data_eq. symmetry. apply firstn_skipn.
+  Qed.
+
+  Lemma range_attempt_gets i a : forallb is_get (fst (fst (range_attempt obj r i a))) = true /\
+    length (fst (fst (range_attempt obj r i a))) = 1%nat.
+  Proof using.
+    clear Hlo Hle. unfold range_attempt. destruct (a_get a); [now split|].
+    destruct (chunks_of _ _ _) as [cs flt]. now split.
+  Qed.
+
+  (** a successful attempt's writes cover the whole interval of the range *)
+  Lemma range_attempt_covers i a p :
+    snd (range_attempt obj r i a) = AOk ->
+    snd (range_interval (Z.of_nat (length obj)) r) <= Z.of_nat (length obj) ->
+    (Z.to_nat (fst r) <= p)%nat -> Z.of_nat p < snd (range_interval (Z.of_nat (length obj)) r) ->
+    exists w, In w (snd (fst (range_attempt obj r i a))) /\ covers w p.
+  Proof using Hlo Hle.
+    unfold range_attempt. destruct (a_get a) as [c|]; [destruct c; discriminate|].
+    destruct (chunks_of _ _ _) as [cs flt] eqn:Ec. cbn [fst snd].
+    destruct flt; [destruct (fault_cls a); discriminate|]. intros _ Hhi Hp1 Hp2.
+    apply chunks_of_complete in Ec; [|unfold RANGED_BUF; lia].
+    apply writes_from_covers; [exact Hlo|]. rewrite Ec, range_data_eq.
+    rewrite firstn_length, skipn_length. lia.
+  Qed.
+
+  Lemma range_loop_consistent max scripts :
+    Forall (consistent obj) (snd (fst (range_loop obj r max scripts))).
+  Proof using Hlo Hle.
+    unfold range_loop. destruct (retry_loop _ _ _ _) as [xs rr] eqn:E. cbn [fst snd].
+    apply retry_loop_spec in E. destruct E as (_ & L2 & _).
+    apply Forall_forall. intros w Hw. apply in_concat in Hw. destruct Hw as (l & Hl & Hw).
+    apply in_map_iff in Hl. destruct Hl as (x & <- & Hx).
+    apply (In_nth _ _ (([], []) : list dev * list (Z * bytes))) in Hx. destruct Hx as (j & Hj & <-).
+    rewrite L2 in Hw by exact Hj.
+    pose proof (range_attempt_consistent (0 + j) (nth j scripts ok_attempt)) as Hc.
+    rewrite Forall_forall in Hc. now apply Hc.
+  Qed.
+
+  Lemma range_loop_gets max scripts :
+    forallb is_get (fst (fst (range_loop obj r max scripts))) = true /\
+    (length (fst (fst (range_loop obj r max scripts))) <= max)%nat.
+  Proof using.
+    clear Hlo Hle.
+    unfold range_loop. destruct (retry_loop _ _ _ _) as [xs rr] eqn:E. cbn [fst snd].
+    apply retry_loop_spec in E. destruct E as (L1 & L2 & _).
+    assert (Hx : forall x, In x xs -> forallb is_get (fst x) = true /\ length (fst x) = 1%nat).
+    { intros x Hx. apply (In_nth _ _ (([], []) : list dev * list (Z * bytes))) in Hx.
+      destruct Hx as (j & Hj & <-). rewrite L2 by exact Hj. apply range_attempt_gets. }
+    split.
+    - apply forallb_concat. intros l Hl. apply in_map_iff in Hl. destruct Hl as (x & <- & Hin).
+      now apply Hx.
+    - clear L2. revert L1 Hx. generalize max. induction xs as [|x xs IH]; intros mx L1 Hx; [cbn; lia|].
+      cbn [map concat length] in *. rewrite app_length.
+      destruct (Hx x (or_introl eq_refl)) as [_ ->].
+      destruct mx; [lia|]. specialize (IH mx ltac:(lia) (fun y Hy => Hx y (or_intror Hy))). lia.
+  Qed.
+
+  Lemma range_loop_covers max scripts p :
+    snd (range_loop obj r max scripts) = RDone ->
+    snd (range_interval (Z.of_nat (length obj)) r) <= Z.of_nat (length obj) ->
+    (Z.to_nat (fst r) <= p)%nat -> Z.of_nat p < snd (range_interval (Z.of_nat (length obj)) r) ->
+    exists w, In w (snd (fst (range_loop obj r max scripts))) /\ covers w p.
+  Proof using Hlo Hle.
+    unfold range_loop. destruct (retry_loop _ _ _ _) as [xs rr] eqn:E. cbn [fst snd].
+    intros -> Hhi Hp1 Hp2.
+    apply retry_loop_spec in E. destruct E as (_ & L2 & _ & (k & Lk & Lr)).
+    destruct (range_attempt_covers _ _ p Lr Hhi Hp1 Hp2) as (w & Hw & Hc).
+    exists w. split; [|exact Hc]. apply in_concat.
+    exists (snd (nth k xs ([], []))). split.
+    - apply in_map. apply nth_In. lia.
+    - rewrite L2 by lia. exact Hw.
+  Qed.
+End OneRange.
+
+(** ** the IO thread's interleaving *)
+
+Lemma replace_nth_concat {A} (w : A) : forall ls i x rest,
+  nth i ls [] = x :: rest ->
+  (In w (concat ls) <-> w = x \/ In w (concat (replace_nth i rest ls))).
+Proof.
+  induction ls as [|l ls IH]; intros i x rest H.
+  - destruct i; discriminate.
+  - destruct i as [|i]; cbn [nth replace_nth concat] in *.
+    + subst l. cbn [app]. rewrite !in_app_iff. cbn [In]. rewrite in_app_iff. intuition congruence.
+    + rewrite !in_app_iff. rewrite (IH i x rest H). tauto.
+Qed.
+
+Lemma merge_In {A} (w : A) : forall sched ls, In w (merge sched ls) <-> In w (concat ls).
+Proof.
+  induction sched as [|i s IH]; intros ls; cbn [merge]; [tauto|].
+  destruct (nth i ls []) as [|x rest] eqn:E; [apply IH|].
+  cbn [In]. rewrite IH. rewrite (replace_nth_concat w ls i x rest E). intuition congruence.
+Qed.
+
+(** ** all ranges together *)
+
+Definition the_range (size chunk : Z) (i : nat) : Z * option Z :=
+  range_param chunk (Z.of_nat i) (num_parts size chunk) None.
+
+Lemma download_ranges_length size chunk :
+  length (download_ranges size chunk) = Z.to_nat (num_parts size chunk).
+Proof. unfold download_ranges. now rewrite map_length, zseq_length. Qed.
+
+Lemma download_ranges_nth size chunk i d : (i < Z.to_nat (num_parts size chunk))%nat ->
+  nth i (download_ranges size chunk) d = the_range size chunk i.
+Proof.
+  intros Hi. unfold download_ranges, the_range.
+  rewrite (nth_indep _ d (range_param chunk 0 (num_parts size chunk) None))
+    by now rewrite map_length, zseq_length.
+  rewrite (map_nth (fun i0 => range_param chunk i0 (num_parts size chunk) None)).
+  rewrite zseq_nth by exact Hi. reflexivity.
+Qed.
+
+Lemma range_runs_length obj chunk max scripts :
+  length (range_runs obj chunk max scripts) = Z.to_nat (num_parts (Z.of_nat (length obj)) chunk).
+Proof.
+  unfold range_runs. rewrite map_length, combine_length, seq_length, Nat.min_id.
+  apply download_ranges_length.
+Qed.
+
+Lemma range_runs_nth obj chunk max scripts i d :
+  (i < Z.to_nat (num_parts (Z.of_nat (length obj)) chunk))%nat ->
+  nth i (range_runs obj chunk max scripts) d =
+  range_loop obj (the_range (Z.of_nat (length obj)) chunk i) max (nth i scripts []).
+Proof.
+  intros Hi. pose proof (range_runs_length obj chunk max scripts) as Hl.
+  unfold range_runs in *.
+  set (rs := download_ranges (Z.of_nat (length obj)) chunk) in *.
+  set (F := fun ir : nat * (Z * option Z) => range_loop obj (snd ir) max (nth (fst ir) scripts [])) in *.
+  rewrite (nth_indep _ d (F (0%nat, (0, None)))) by lia.
+  rewrite (map_nth F). rewrite combine_nth by now rewrite seq_length.
+  assert (Hr : length rs = Z.to_nat (num_parts (Z.of_nat (length obj)) chunk)) by apply download_ranges_length.
+  rewrite seq_nth by lia. unfold F. cbn [fst snd Nat.add].
+  unfold rs. now rewrite download_ranges_nth by exact Hi.
+Qed.
+
+Lemma the_range_facts size chunk i :
+  0 <= size -> 0 < chunk -> (i < Z.to_nat (num_parts size chunk))%nat ->
+  fst (the_range size chunk i) = Z.of_nat i * chunk /\
+  snd (range_interval size (the_range size chunk i)) = Z.min ((Z.of_nat i + 1) * chunk) size /\
+  Z.of_nat i * chunk < size.
+Proof.
+  intros Hs Hc Hi.
+  assert (Hi' : 0 <= Z.of_nat i < num_parts size chunk) by lia.
+  pose proof (part_interval_eq size chunk (Z.of_nat i) Hs Hc Hi') as He.
+  pose proof (part_interval_nonempty size chunk (Z.of_nat i) Hs Hc Hi') as Hn.
+  unfold part_interval in He. fold (the_range size chunk i) in He.
+  split; [|split].
+  - rewrite <- range_interval_fst with (size := size). now rewrite He.
+  - now rewrite He.
+  - lia.
+Qed.
+
+Lemma first_bad_done l : first_bad l = RDone -> Forall (fun x => x = RDone) l.
+Proof.
+  induction l as [|x l IH]; intros H; [constructor|].
+  destruct x; cbn in H; try discriminate. constructor; auto.
+Qed.
+
+(** if no run among the first [ranges_run] is bad then nothing was cancelled *)
+Lemma ranges_run_all res started :
+  first_bad (firstn (ranges_run res started) res) = RDone ->
+  ranges_run res started = length res /\ Forall (fun x => x = RDone) res.
+Proof.
+  intros H. apply first_bad_done in H. unfold ranges_run in *.
+  destruct (first_fail (map rres_ok res)) as [f|] eqn:E.
+  - exfalso. pose proof (parts_run_covers_first_fail _ started _ E) as Hf.
+    apply first_fail_some in E. destruct E as (E1 & E2 & _). rewrite map_length in E1.
+    rewrite Forall_forall in H.
+    assert (Hin : In (nth f res RDone) (firstn (parts_run (map rres_ok res) started) res)).
+    { rewrite <- (firstn_skipn (parts_run (map rres_ok res) started) res) at 1.
+      rewrite app_nth1 by (rewrite firstn_length; lia). apply nth_In. rewrite firstn_length. lia. }
+    apply H in Hin.
+    rewrite (nth_indep _ true (rres_ok RDone)) in E2 by now rewrite map_length.
+    rewrite (map_nth rres_ok), Hin in E2. discriminate.
+  - rewrite (parts_run_all_ok _ _ E), map_length in *. split; [reflexivity|].
+    now rewrite firstn_all in H.
+Qed.
+
+(** C02 for the ranged path: success => the temp file holds the object, for
+    every schedule of the IO queue, every completion order, every oracle. *)
+Lemma ranged_get_done obj chunk max scripts started sched ioo iof evs :
+  0 < chunk ->
+  ranged_get obj chunk max scripts started sched ioo iof = (evs, DSuccess) ->
+  forall s, run_from s evs = {| temp := Some obj; dest := dest s |}.
+Proof.
+  intros Hc H s. unfold ranged_get in H.
+  set (runs := range_runs obj chunk max scripts) in *.
+  set (m := ranges_run (map snd runs) started) in *.
+  destruct ioo; cbn [negb] in H; [|discriminate].
+  destruct (io_writes _ 0 iof) as [wes flt] eqn:Ew.
+  destruct flt; [discriminate|].
+  destruct (first_bad (map snd (firstn m runs))) eqn:Eb; try discriminate.
+  injection H as <-.
+  rewrite <- firstn_map in Eb. apply ranges_run_all in Eb. destruct Eb as [Em Hall].
+  fold m in Em. rewrite map_length in Em.
+  rewrite Em, firstn_all in Ew. rewrite Em, firstn_all. clear m Em.
+  apply io_writes_ok in Ew. subst wes.
+  set (size := Z.of_nat (length obj)) in *.
+  assert (Hs : 0 <= size) by (unfold size; lia).
+  pose proof (range_runs_length obj chunk max scripts) as Hlen. fold runs size in Hlen.
+  cbn [run_from fold_left apply_ev].
+  change (fold_left apply_ev ?l ?s0) with (run_from s0 l).
+  rewrite run_from_app.
+  rewrite (gets_keep_fs (concat _)).
+  2:{ apply forallb_concat. intros l Hl. apply in_map_iff in Hl. destruct Hl as (x & <- & Hx).
+      apply (In_nth _ _ (([], []), RDone)) in Hx. destruct Hx as (i & Hi & <-).
+      rewrite Hlen in Hi. unfold runs. rewrite range_runs_nth by exact Hi.
+      exact (proj1 (range_loop_gets obj _ max _)). }
+  rewrite run_writes. f_equal. f_equal.
+  apply apply_writes_all.
+  - apply Forall_forall. intros w Hw. apply merge_In in Hw.
+    apply in_concat in Hw. destruct Hw as (l & Hl & Hw).
+    apply in_map_iff in Hl. destruct Hl as (x & <- & Hx).
+    apply (In_nth _ _ (([], []), RDone)) in Hx. destruct Hx as (i & Hi & <-).
+    rewrite Hlen in Hi. unfold runs in Hw. rewrite range_runs_nth in Hw by exact Hi.
+    destruct (the_range_facts size chunk i Hs Hc Hi) as (F1 & F2 & F3).
+    pose proof (range_loop_consistent obj (the_range size chunk i)) as Hcons.
+    specialize (Hcons ltac:(rewrite F1; lia) ltac:(rewrite F1; unfold size in *; nia) max (nth i scripts [])).
+    rewrite Forall_forall in Hcons. now apply Hcons.
+  - intros p Hp.
+    set (i := Z.to_nat (Z.of_nat p / chunk)).
+    assert (Hi : (i < Z.to_nat (num_parts size chunk))%nat).
+    { unfold i, num_parts. pose proof (ceil_div_spec size chunk Hs Hc). unfold size in *. nia. }
+    destruct (the_range_facts size chunk i Hs Hc Hi) as (F1 & F2 & F3).
+    assert (Hrun : snd (nth i runs (([], []), RDone)) = RDone).
+    { rewrite Forall_forall in Hall. apply Hall.
+      rewrite <- (map_nth snd). apply nth_In. rewrite map_length. lia. }
+    unfold runs in Hrun. rewrite range_runs_nth in Hrun by exact Hi. fold size in Hrun.
+    destruct (range_loop_covers obj (the_range size chunk i)
+                ltac:(rewrite F1; lia) ltac:(rewrite F1; unfold size in *; nia)
+                max (nth i scripts []) p Hrun) as (w & Hw & Hcv).
+    + fold size. rewrite F2. lia.
+    + rewrite F1. unfold i. nia.
+    + fold size. rewrite F2. unfold i, size in *. nia.
+    + exists w. split; [|exact Hcv]. apply merge_In. apply in_concat.
+      exists (snd (fst (nth i runs (([], []), RDone)))). split.
+      * apply (in_map (fun x => snd (fst x))). apply nth_In. lia.
+      * unfold runs. rewrite range_runs_nth by exact Hi. exact Hw.
+Qed.
+
+(** ** the whole download *)
+
+Lemma gets_are_body l : forallb is_get l = true -> forallb is_body l = true.
+Proof.
+  intros H. apply forallb_forall. intros e He. rewrite forallb_forall in H.
+  specialize (H e He). now destruct e.
+Qed.
+
+Lemma ranged_get_body obj chunk max scripts started sched ioo iof :
+  forallb is_body (fst (ranged_get obj chunk max scripts started sched ioo iof)) = true.
+Proof.
+  unfold ranged_get.
+  set (runs := range_runs obj chunk max scripts).
+  set (m := ranges_run (map snd runs) started).
+  assert (Hg : forallb is_body (concat (map (fun x => fst (fst x)) (firstn m runs))) = true).
+  { apply gets_are_body. apply forallb_concat. intros l Hl. apply in_map_iff in Hl.
+    destruct Hl as (x & <- & Hx). apply In_firstn_incl in Hx.
+    unfold runs, range_runs in Hx. apply in_map_iff in Hx. destruct Hx as (ir & <- & _).
+    exact (proj1 (range_loop_gets obj _ max _)). }
+  destruct ioo; cbn [negb].
+  2:{ cbn [fst forallb is_body]. exact Hg. }
+  destruct (io_writes _ 0 iof) as [wes flt] eqn:Ew. apply io_writes_body in Ew.
+  assert (He : forallb is_body (EOpen true :: concat (map (fun x => fst (fst x)) (firstn m runs)) ++ wes) = true).
+  { cbn [forallb is_body]. rewrite forallb_app, Hg, Ew. reflexivity. }
+  destruct flt; [exact He|]. destruct (first_bad _); exact He.
+Qed.
+
+Lemma download_body_body thr chunk max obj o :
+  forallb is_body (fst (download_body thr chunk max obj o)) = true.
+Proof.
+  unfold download_body. destruct (is_multipart _ _); [apply ranged_get_body|].
+  pose proof (single_get_body obj max (o_single o)) as H.
+  destruct (single_get obj max (o_single o)) as [es r]. exact H.
+Qed.
+
+Lemma download_body_done thr chunk max obj o es : 0 < chunk ->
+  download_body thr chunk max obj o = (es, DSuccess) ->
+  forall s, run_from s es = {| temp := Some obj; dest := dest s |}.
+Proof.
+  intros Hc. unfold download_body. destruct (is_multipart _ _).
+  - now apply ranged_get_done.
+  - destruct (single_get obj max (o_single o)) as [es' r] eqn:E.
+    destruct r; try discriminate. intros [= <-] s. exact (single_get_done _ _ _ _ E s).
+Qed.
+
+(** events that leave the destination alone: everything but a successful rename *)
+Definition safe (e : dev) : bool := match e with ERename true => false | _ => true end.
+
+Lemma safe_keeps_dest : forall l s, forallb safe l = true -> dest (run_from s l) = dest s.
+Proof.
+  induction l as [|e l IH]; intros s H; [reflexivity|].
+  cbn in H. apply andb_prop in H. destruct H as [He Hl].
+  cbn [run_from fold_left]. change (fold_left apply_ev l (apply_ev s e)) with (run_from (apply_ev s e) l).
+  rewrite IH by exact Hl.
+  destruct e as [ok|r a ok|ok|off d ok| |ok]; try reflexivity; destruct ok; try reflexivity; discriminate.
+Qed.
+
+Lemma body_safe l : forallb is_body l = true -> forallb safe l = true.
+Proof.
+  intros H. apply forallb_forall. intros e He. rewrite forallb_forall in H.
+  specialize (H e He). now destruct e.
+Qed.
+
+Lemma forallb_firstn {A} (f : A -> bool) k l : forallb f l = true -> forallb f (firstn k l) = true.
+Proof.
+  intros H. apply forallb_forall. intros x Hx. rewrite forallb_forall in H.
+  apply H. eapply In_firstn_incl; exact Hx.
+Qed.
+
+Lemma firstn_snoc {A} k (l : list A) x :
+  firstn k (l ++ [x]) = firstn k l \/ firstn k (l ++ [x]) = l ++ [x].
+Proof.
+  destruct (Nat.le_gt_cases k (length l)) as [H|H].
+  - left. rewrite firstn_app. replace (k - length l)%nat with 0%nat by lia. cbn. apply app_nil_r.
+  - right. apply firstn_all2. rewrite app_length. cbn. lia.
+Qed.
+
+Definition old_or_complete (old : option bytes) (obj : bytes) (s : fs) : Prop :=
+  dest s = old \/ dest s = Some obj.
+
+(** C06 + C02 for the legacy download: at every prefix of the event sequence
+    the destination is the old content or the whole object; success leaves
+    the object under the destination name and no temp file; every failure
+    (head, request, stream, write, open, rename) leaves the old destination
+    and no temp file. *)
+Lemma legacy_download_atomic thr chunk max obj o old : 0 < chunk ->
+  let (evs, out) := legacy_download thr chunk max obj o in
+  (forall k, old_or_complete old obj (final_fs old (firstn k evs))) /\
+  (out = DSuccess -> final_fs old evs = {| temp := None; dest := Some obj |}) /\
+  (out <> DSuccess -> final_fs old evs = {| temp := None; dest := old |}).
+Proof.
+  intros Hc. unfold legacy_download. destruct (o_head_ok o); cbn [negb].
+  2:{ split; [|split]; [|discriminate|reflexivity].
+      intros k. left. unfold final_fs. apply (safe_keeps_dest _ (init_fs old)). now apply forallb_firstn. }
+  pose proof (download_body_body thr chunk max obj o) as Hb.
+  pose proof (download_body_done thr chunk max obj o) as Hd.
+  destruct (download_body thr chunk max obj o) as [es r]. cbn [fst] in Hb.
+  apply body_safe in Hb.
+  assert (Hfail : forall tl, forallb safe tl = true ->
+            (forall k, old_or_complete old obj (final_fs old (firstn k (EHead true :: es ++ tl)))) /\
+            dest (final_fs old (EHead true :: es ++ tl)) = old).
+  { intros tl Ht.
+    assert (Hs : forallb safe (EHead true :: es ++ tl) = true).
+    { cbn [forallb safe]. rewrite forallb_app, Hb, Ht. reflexivity. }
+    split; [intros k; left|]; unfold final_fs; rewrite safe_keeps_dest; auto using forallb_firstn. }
+  assert (Hrm : forall pre, final_fs old (EHead true :: es ++ pre ++ [ERemove]) =
+                  {| temp := None; dest := dest (final_fs old (EHead true :: es ++ pre ++ [ERemove])) |}).
+  { intros pre. unfold final_fs.
+    replace (EHead true :: es ++ pre ++ [ERemove]) with ((EHead true :: es ++ pre) ++ [ERemove])
+      by (cbn [app]; now rewrite <- app_assoc).
+    rewrite run_from_app. reflexivity. }
+  destruct r.
+  - specialize (Hd es Hc eq_refl). destruct (o_rename_ok o).
+    + assert (Hfin : final_fs old (EHead true :: es ++ [ERename true]) = {| temp := None; dest := Some obj |}).
+      { unfold final_fs. change (EHead true :: es ++ [ERename true]) with ((EHead true :: es) ++ [ERename true]).
+        rewrite run_from_app. cbn [run_from fold_left apply_ev].
+        change (fold_left apply_ev es (init_fs old)) with (run_from (init_fs old) es).
+        rewrite Hd. reflexivity. }
+      split; [|split]; [|intros _; exact Hfin|intros H; now elim H].
+      intros k. change (EHead true :: es ++ [ERename true]) with ((EHead true :: es) ++ [ERename true]).
+      destruct (firstn_snoc k (EHead true :: es) (ERename true)) as [-> | ->].
+      * left. unfold final_fs. apply (safe_keeps_dest _ (init_fs old)). apply forallb_firstn. cbn [forallb safe]. exact Hb.
+      * right. change ((EHead true :: es) ++ [ERename true]) with (EHead true :: es ++ [ERename true]).
+        now rewrite Hfin.
+    + destruct (Hfail [ERename false; ERemove] eq_refl) as [H1 H2].
+      split; [exact H1|]. split; [discriminate|]. intros _.
+      pose proof (Hrm [ERename false]) as Hr. cbn [app] in Hr. rewrite Hr. now rewrite H2.
+  - destruct (Hfail [ERemove] eq_refl) as [H1 H2].
+    split; [exact H1|]. split; [discriminate|]. intros _.
+    pose proof (Hrm []) as Hr. cbn [app] in Hr. rewrite Hr. now rewrite H2.
+  - destruct (Hfail [ERemove] eq_refl) as [H1 H2].
+    split; [exact H1|]. split; [discriminate|]. intros _.
+    pose proof (Hrm []) as Hr. cbn [app] in Hr. rewrite Hr. now rewrite H2.
+  - destruct (Hfail [ERemove] eq_refl) as [H1 H2].
+    split; [exact H1|]. split; [discriminate|]. intros _.
+    pose proof (Hrm []) as Hr. cbn [app] in Hr. rewrite Hr. now rewrite H2.
+  - destruct (Hfail [ERemove] eq_refl) as [H1 H2].
+    split; [exact H1|]. split; [discriminate|]. intros _.
+    pose proof (Hrm []) as Hr. cbn [app] in Hr. rewrite Hr. now rewrite H2.
+  - destruct (Hfail [ERemove] eq_refl) as [H1 H2].
+    split; [exact H1|]. split; [discriminate|]. intros _.
+    pose proof (Hrm []) as Hr. cbn [app] in Hr. rewrite Hr. now rewrite H2.
+Qed.
+
+(** The shape before the repair (rename in the else branch): a failing rename
+    leaves the temporary file behind. *)
+Definition rename_fault_oracle : doracle :=
+  {| o_head_ok := true; o_single := []; o_ranged := []; o_started := 0; o_sched := [];
+     o_io_open_ok := true; o_io_fail := None; o_rename_ok := false |}.
+
+Lemma unrepaired_rename_leaves_temp :
+  let (evs, out) := legacy_download_unrepaired 100 4 3 [1; 2; 3] rename_fault_oracle in
+  out = DRenameErr /\ final_fs (Some [9]) evs = {| temp := Some [1; 2; 3]; dest := Some [9] |}.
+Proof. vm_compute. split; reflexivity. Qed.
+
+(** a non-retryable error (or a success) ends the loop: no attempt follows it *)
+Lemma retry_loop_stops {A} (run : nat -> attempt -> A * ares) fuel scripts es r j :
+  retry_loop run fuel 0 scripts = (es, r) -> (j < length es)%nat ->
+  snd (run j (nth j scripts ok_attempt)) <> ARetry -> S j = length es.
+Proof.
+  intros H Hj Hn. apply retry_loop_spec in H. destruct H as (_ & _ & L3 & _).
+  destruct (Nat.lt_ge_cases (S j) (length es)) as [Hlt|Hge]; [|lia].
+  elim Hn. exact (L3 j Hlt).
+Qed.
+
+Lemma fatal_is_fatal obj i a :
+  (a_get a = Some Fatal -> snd (single_attempt obj i a) = AFatal) /\
+  (forall r, a_get a = Some Fatal -> snd (range_attempt obj r i a) = AFatal).
+Proof.
+  split; [|intros r]; intros H; unfold single_attempt, range_attempt; now rewrite H.
+Qed.
+
+(** ** fewer than max_attempts retryable faults per request: the download succeeds *)
+
+Definition clean (a : attempt) : Prop :=
+  a_get a = None /\ a_open a = None /\ a_fail_after a = None /\ a_write_fail a = None.
+
+Definition retryable_only (a : attempt) : Prop :=
+  a_get a <> Some Fatal /\ a_open a <> Some Fatal /\
+  (forall k, a_fail_after a <> Some (k, Fatal)) /\ (forall j, a_write_fail a <> Some (j, Fatal)).
+
+(** some attempt among the first [max] is fault free and only retryable
+    faults (at any byte position, with any read sizes) come before it *)
+Definition good (max : nat) (scripts : list attempt) : Prop :=
+  exists k, (k < max)%nat /\ clean (nth k scripts ok_attempt) /\
+            forall j, (j < k)%nat -> retryable_only (nth j scripts ok_attempt).
+
+Lemma stream_chunks_nofault fuel : forall rest delivered reads buf,
+  snd (stream_chunks fuel rest delivered reads buf None) = false.
+Proof.
+  induction fuel as [|f IH]; intros rest delivered reads buf; [reflexivity|].
+  rewrite stream_chunks_step. unfold read_limit.
+  destruct (firstn _ rest) as [|x d']; [reflexivity|].
+  specialize (IH (skipn (Z.to_nat match reads with [] => buf | r :: _ => Z.min buf (Z.max 1 r) end) rest)
+                 (delivered + Z.of_nat (length (x :: d'))) (tl reads) buf).
+  destruct (stream_chunks f _ _ _ _ None) as [cs flt]. exact IH.
+Qed.
+
+Lemma single_writes_none : forall ws j, snd (single_writes ws j None) = None.
+Proof.
+  induction ws as [|[off d] ws IH]; intros j; [reflexivity|]. cbn [single_writes].
+  specialize (IH (S j)). destruct (single_writes ws (S j) None) as [es x]. exact IH.
+Qed.
+
+Lemma single_writes_cls : forall ws j k c c',
+  snd (single_writes ws j (Some (k, c))) = Some c' -> c' = c.
+Proof.
+  induction ws as [|[off d] ws IH]; intros j k c c' H; [discriminate|]. cbn [single_writes] in H.
+  destruct (Nat.eqb k j); [now injection H|].
+  specialize (IH (S j) k c c'). destruct (single_writes ws (S j) (Some (k, c))) as [es x]. now apply IH.
+Qed.
+
+Lemma single_attempt_clean obj i a : clean a -> snd (single_attempt obj i a) = AOk.
+Proof.
+  intros (H1 & H2 & H3 & H4). unfold single_attempt. rewrite H1, H2.
+  pose proof (stream_chunks_nofault (S (length obj)) obj 0 (a_reads a) SINGLE_BUF) as Hf.
+  unfold chunks_of. rewrite H3. destruct (stream_chunks _ _ _ _ _ None) as [cs flt]. cbn [snd] in Hf. subst flt.
+  rewrite H4. pose proof (single_writes_none (writes_from 0 cs) 0) as Hw.
+  destruct (single_writes _ 0 None) as [wes werr]. cbn [snd] in Hw. now subst werr.
+Qed.
+
+Lemma single_attempt_retryable obj i a : retryable_only a -> snd (single_attempt obj i a) <> AFatal.
+Proof.
+  intros (H1 & H2 & H3 & H4). unfold single_attempt.
+  destruct (a_get a) as [[]|]; [discriminate|congruence|].
+  destruct (a_open a) as [[]|]; [discriminate|congruence|].
+  destruct (chunks_of obj SINGLE_BUF a) as [cs flt].
+  destruct (a_write_fail a) as [[k c]|] eqn:Ew.
+  - pose proof (single_writes_cls (writes_from 0 cs) 0 k c) as Hc.
+    destruct (single_writes _ 0 (Some (k, c))) as [wes werr]. cbn [snd] in *.
+    destruct werr as [c'|].
+    + rewrite (Hc c' eq_refl). destruct c; [discriminate|]. now elim (H4 k).
+    + destruct flt; [|discriminate]. unfold fault_cls.
+      destruct (a_fail_after a) as [[k' []]|]; try discriminate. now elim (H3 k').
+  - pose proof (single_writes_none (writes_from 0 cs) 0) as Hw.
+    destruct (single_writes _ 0 None) as [wes werr]. cbn [snd] in *. subst werr.
+    destruct flt; [|discriminate]. unfold fault_cls.
+    destruct (a_fail_after a) as [[k' []]|]; try discriminate. now elim (H3 k').
+Qed.
+
+Lemma range_attempt_clean obj r i a : clean a -> snd (range_attempt obj r i a) = AOk.
+Proof.
+  intros (H1 & _ & H3 & _). unfold range_attempt. rewrite H1.
+  pose proof (stream_chunks_nofault (S (length (range_data obj r))) (range_data obj r) 0 (a_reads a) RANGED_BUF) as Hf.
+  unfold chunks_of. rewrite H3. destruct (stream_chunks _ _ _ _ _ None) as [cs flt]. cbn [snd] in *. now subst flt.
+Qed.
+
+Lemma range_attempt_retryable obj r i a : retryable_only a -> snd (range_attempt obj r i a) <> AFatal.
+Proof.
+  intros (H1 & _ & H3 & _). unfold range_attempt.
+  destruct (a_get a) as [[]|]; [discriminate|congruence|].
+  destruct (chunks_of _ RANGED_BUF a) as [cs flt]. cbn [snd].
+  destruct flt; [|discriminate]. unfold fault_cls.
+  destruct (a_fail_after a) as [[k' []]|]; try discriminate. now elim (H3 k').
+Qed.
+
+Lemma retry_loop_progress {A} (run : nat -> attempt -> A * ares) : forall fuel i scripts k,
+  (k < fuel)%nat -> snd (run (i + k)%nat (nth k scripts ok_attempt)) = AOk ->
+  (forall j, (j < k)%nat -> snd (run (i + j)%nat (nth j scripts ok_attempt)) <> AFatal) ->
+  snd (retry_loop run fuel i scripts) = RDone.
+Proof.
+  induction fuel as [|f IH]; intros i scripts k Hk Hok Hpre; [lia|].
+  cbn [retry_loop].
+  assert (Hhd : hd ok_attempt scripts = nth 0 scripts ok_attempt) by now destruct scripts.
+  assert (Htl : forall j, nth j (tl scripts) ok_attempt = nth (S j) scripts ok_attempt).
+  { intros j. destruct scripts; [now destruct j|reflexivity]. }
+  rewrite Hhd. destruct (run i (nth 0 scripts ok_attempt)) as [e x] eqn:Er.
+  destruct x; [reflexivity| |].
+  - destruct k as [|k]; [rewrite Nat.add_0_r, Er in Hok; discriminate|].
+    specialize (IH (S i) (tl scripts) k ltac:(lia)).
+    destruct (retry_loop run f (S i) (tl scripts)) as [es rr]. cbn [snd] in *. apply IH.
+    + rewrite Htl. replace (S i + k)%nat with (i + S k)%nat by lia. exact Hok.
+    + intros j Hj. rewrite Htl. replace (S i + j)%nat with (i + S j)%nat by lia. apply Hpre. lia.
+  - exfalso. destruct k as [|k]; [rewrite Nat.add_0_r, Er in Hok; discriminate|].
+    apply (Hpre 0%nat ltac:(lia)). now rewrite Nat.add_0_r, Er.
+Qed.
+
+Lemma single_get_good obj max scripts : good max scripts -> snd (single_get obj max scripts) = RDone.
+Proof.
+  intros (k & Hk & Hc & Hpre). unfold single_get.
+  pose proof (retry_loop_progress (single_attempt obj) max 0 scripts k Hk) as H.
+  destruct (retry_loop _ _ _ _) as [es r]. cbn [snd] in *. apply H.
+  - now apply single_attempt_clean.
+  - intros j Hj. apply single_attempt_retryable. now apply Hpre.
+Qed.
+
+Lemma range_loop_good obj r max scripts : good max scripts -> snd (range_loop obj r max scripts) = RDone.
+Proof.
+  intros (k & Hk & Hc & Hpre). unfold range_loop.
+  pose proof (retry_loop_progress (range_attempt obj r) max 0 scripts k Hk) as H.
+  destruct (retry_loop _ _ _ _) as [es rr]. cbn [snd] in *. apply H.
+  - now apply range_attempt_clean.
+  - intros j Hj. apply range_attempt_retryable. now apply Hpre.
+Qed.
+
+Lemma first_bad_all l : Forall (fun x => x = RDone) l -> first_bad l = RDone.
+Proof. induction 1 as [|x l -> _ IH]; [reflexivity|exact IH]. Qed.
+
+Lemma io_writes_none : forall ws j, snd (io_writes ws j None) = false.
+Proof.
+  induction ws as [|[off d] ws IH]; intros j; [reflexivity|]. cbn [io_writes].
+  specialize (IH (S j)). destruct (io_writes ws (S j) None) as [es x]. exact IH.
+Qed.
+
+Lemma ranged_get_good obj chunk max scripts started sched :
+  (forall i, good max (nth i scripts [])) ->
+  snd (ranged_get obj chunk max scripts started sched true None) = DSuccess.
+Proof.
+  intros Hg. unfold ranged_get. cbn [negb].
+  set (runs := range_runs obj chunk max scripts).
+  assert (Hall : Forall (fun x => x = RDone) (map snd runs)).
+  { apply Forall_forall. intros x Hx. apply in_map_iff in Hx. destruct Hx as (y & <- & Hy).
+    unfold runs, range_runs in Hy. apply in_map_iff in Hy. destruct Hy as (ir & <- & _).
+    apply range_loop_good. apply Hg. }
+  pose proof (io_writes_none (merge sched (map (fun x => snd (fst x))
+                (firstn (ranges_run (map snd runs) started) runs))) 0) as Hw.
+  destruct (io_writes _ 0 None) as [wes flt]. cbn [snd] in Hw. subst flt.
+  rewrite <- firstn_map, first_bad_all; [reflexivity|].
+  apply Forall_forall. intros x Hx. apply In_firstn_incl in Hx.
+  rewrite Forall_forall in Hall. now apply Hall.
+Qed.
+
+Definition good_oracle (max : nat) (o : doracle) : Prop :=
+  o_head_ok o = true /\ o_rename_ok o = true /\ o_io_open_ok o = true /\ o_io_fail o = None /\
+  good max (o_single o) /\ forall i, good max (nth i (o_ranged o) []).
+
+Lemma legacy_download_good thr chunk max obj o :
+  good_oracle max o -> snd (legacy_download thr chunk max obj o) = DSuccess.
+Proof.
+  intros (H1 & H2 & H3 & H4 & H5 & H6). unfold legacy_download. rewrite H1. cbn [negb].
+  assert (Hb : snd (download_body thr chunk max obj o) = DSuccess).
+  { unfold download_body. destruct (is_multipart _ _).
+    - rewrite H3, H4. now apply ranged_get_good.
+    - pose proof (single_get_good obj max (o_single o) H5) as Hs.
+      destruct (single_get obj max (o_single o)) as [es r]. cbn [snd] in *. now subst r. }
+  destruct (download_body thr chunk max obj o) as [es r]. cbn [snd] in Hb. subst r.
+  now rewrite H2.
+Qed.
